@@ -124,6 +124,7 @@ EXTRA_TEXT["C04"] += " Also decided (CrossHair/z3): Composer._write_assignment o
 EXTRA_TEXT["C06"] += " Also decided (CrossHair/z3, one job per group structure): parse_module_body gives a wire declaration the union of up to three (* *) groups written in front of it (three keys, bare or with a symbolic value) and the following item none."
 EXTRA_TEXT["C09"] += " Also decided: _bring_to_top names an instance / a cable prefix/name for every pair of symbolic name and prefix domains in which names start with, contain and repeat the prefix, moves it into the top, refreshes an EDIF identifier iff present, changes nothing else."
 EXTRA_TEXT["C18"] += " Also decided (CrossHair/z3): find_and_write_additional_instance_info writes every .attr / .param / .cname line of an instance (tables present or absent, 0-2 entries, symbolic values); a reference reader recovers exactly the stored tables."
+EXTRA_TEXT["C05"] += " Also decided (CrossHair/z3, one job per structure): parse_property reads up to three string properties of one instance (absent / plain / renamed, symbolic value) each with its own identifier, original name iff renamed, and value."
 for _p, _t in EXTRA_TEXT.items():
     CLAIMED[_p]["text"] += " " + _t
 
